@@ -1051,3 +1051,148 @@ func onlyEmitsFailed(s *Sem, g *ssa.Function, d int) bool {
 	})
 	return ok && n > 0
 }
+
+// ---------------------------------------------------------------------------------------------
+// first-envelope rule (C07, C14)
+
+// checkFirstEnvelopeGate: in the server handshake driver, negotiation and authentication are reachable only through
+// the edges `first.ID == ""` and `first.State == "new"`, where first is the session envelope read first from the peer —
+// the envelope's own fields, not the channel's state (which is always 'new' at that point).
+func checkFirstEnvelopeGate(r *Report, s *Sem, rule string) {
+	p := r.P
+	a := s.anchors()
+	na, why := negotiationAnchors(s)
+	if na == nil {
+		r.Undecided(rule, "anchor-unresolved:negotiation", "-", why)
+		return
+	}
+	est := na.serverEst
+	// the first read of the peer in the driver
+	var first *ssa.Call
+	eachInstr(est, func(in ssa.Instruction) {
+		c, ok := in.(*ssa.Call)
+		if !ok || first != nil {
+			return
+		}
+		g := c.Call.StaticCallee()
+		if g == nil || (s.recvKind(g) != "server" && !containsFn(a.sessionReaders, g)) {
+			return
+		}
+		res := g.Signature.Results()
+		if res.Len() == 2 && typeIs(res.At(0).Type(), s.sessionT) && readsPeer(s, g, 0) && !emitsSession(s, g, 0) {
+			first = c
+		}
+	})
+	if first == nil {
+		r.Undecided(rule, "func "+fnName(est)+" / first read of the peer", p.pos(est.Pos()), "no call that only reads a session envelope")
+		return
+	}
+	ses := extractOf(first, 0)
+	for _, first2 := range []*ssa.Call{na.negCall, na.authCall} {
+		if !instrDominates(first, first2) && !reachesInstr(first, first2) {
+			continue
+		}
+	}
+	gate := func(target *ssa.Call, field, want string) bool {
+		return guardedBy(target.Block(), func(ifi *ssa.If, br bool) bool {
+			for _, cd := range impliedConds(ifi, br) {
+				if cd.Op != token.EQL {
+					continue
+				}
+				x, y := cd.X, cd.Y
+				if !fieldOf(x, ses, field) && !fieldOf(x, ses, "Envelope", field) {
+					x, y = y, x
+				}
+				if !fieldOf(x, ses, field) && !fieldOf(x, ses, "Envelope", field) {
+					continue
+				}
+				if cs, ok := constString(stripConv(y)); ok && cs == want {
+					return true
+				}
+			}
+			return false
+		})
+	}
+	for _, t := range []struct {
+		call *ssa.Call
+		what string
+	}{{na.negCall, "negotiation"}, {na.authCall, "authentication"}} {
+		okState := gate(t.call, "State", "new")
+		okID := gate(t.call, "ID", "")
+		r.Check(rule, "func "+fnName(est)+" / "+t.what+" only for a first envelope in state new with an empty id", p.instrPos(t.call), okState && okID,
+			fmt.Sprintf("guarded by first.State == new: %v, by first.ID == \"\": %v — any other first envelope must be answered with a failed session and nothing else", okState, okID))
+	}
+}
+
+// checkCallbackErrorsPropagate: in the function that calls the registration callback, the non-nil edge of the callback's
+// error and of the establishing send's error reach only returns of a non-nil error.
+func checkCallbackErrorsPropagate(r *Report, s *Sem, rule string) {
+	p := r.P
+	regCalls := callbackCalls(p.LimeFuncs(), registerSig)
+	if len(regCalls) != 1 {
+		r.Undecided(rule, "anchor-unresolved:registration callback call", "-", fmt.Sprintf("%d call sites", len(regCalls)))
+		return
+	}
+	reg := regCalls[0]
+	fn := reg.Parent()
+	check := func(c *ssa.Call, what string) {
+		if len(*c.Referrers()) == 0 {
+			r.Check(rule, "func "+fnName(fn)+" / error of "+what+" is returned", p.instrPos(c), false, "the result is discarded")
+			return
+		}
+		tested := false
+		bad := 0
+		walkFrom(fn, c, walkOpts{
+			cutEdge: func(from *ssa.BasicBlock, k int) bool {
+				ifi := ifOf(from)
+				if ifi == nil {
+					return false
+				}
+				isNil, ok := errTestOf(ifi, k == 0, c)
+				if ok {
+					tested = true
+				}
+				return ok && isNil
+			},
+			barrier: func(in ssa.Instruction) bool {
+				// any further handshake step on the error path means the error was not acted upon
+				if cc, ok := in.(*ssa.Call); ok && cc != c {
+					if g := cc.Call.StaticCallee(); g != nil && s.recvKind(g) == "server" && (emitsSession(s, g, 0) || readsPeer(s, g, 0)) {
+						bad++
+						return true
+					}
+					for _, ac := range callbackCalls([]*ssa.Function{fn}, authSig) {
+						if cc == ac {
+							bad++
+							return true
+						}
+					}
+				}
+				return false
+			},
+			onExit: func(e ssa.Instruction, pred *ssa.BasicBlock) {
+				if ret, ok := e.(*ssa.Return); ok && retMayBeNilVia(ret, pred) {
+					bad++
+				}
+			}})
+		r.Check(rule, "func "+fnName(fn)+" / error of "+what+" is returned", p.instrPos(c), tested && bad == 0,
+			fmt.Sprintf("error tested=%v; %d path(s) from a non-nil error to a nil return or to a further handshake step", tested, bad))
+	}
+	check(reg, "the registration callback")
+	// the establishing send that follows it
+	var est *ssa.Call
+	walkFrom(fn, reg, walkOpts{barrier: func(in ssa.Instruction) bool {
+		if cc, ok := in.(*ssa.Call); ok && cc != reg && est == nil {
+			if g := cc.Call.StaticCallee(); g != nil && s.recvKind(g) == "server" && emitsSession(s, g, 0) && cc.Call.Signature().Results().Len() == 1 {
+				est = cc
+				return true
+			}
+		}
+		return false
+	}})
+	if est == nil {
+		r.Undecided(rule, "func "+fnName(fn)+" / establishing send after registration", p.instrPos(reg), "not found")
+		return
+	}
+	check(est, "the establishing send")
+}
